@@ -136,11 +136,25 @@ fn cmd_worker(args: &[String]) -> i32 {
                 o.flush().unwrap();
             }
         }
+        // a worker that has grown large (world B leaks the lazy statics of every simulated
+        // process, as a real process would) asks to be replaced by a fresh one
+        let recycle = rss_mb() > 1500;
         let mut o = stdout.lock();
-        writeln!(o, "S {}", serde_json::to_string(&stats.to_json()).unwrap()).unwrap();
+        writeln!(o, "{} {}", if recycle { "S!" } else { "S" }, serde_json::to_string(&stats.to_json()).unwrap()).unwrap();
         o.flush().unwrap();
+        if recycle {
+            return 0;
+        }
     }
     0
+}
+
+/// Resident set size of this process in MiB (0 if unknown).
+fn rss_mb() -> u64 {
+    std::fs::read_to_string("/proc/self/statm")
+        .ok()
+        .and_then(|s| s.split_whitespace().nth(1).and_then(|x| x.parse::<u64>().ok()))
+        .map_or(0, |pages| pages * 4096 / (1 << 20))
 }
 
 /// Shrink while the same oracle fires *and* the known-finding class stays the same.
@@ -363,6 +377,19 @@ fn cmd_check(args: &[String]) -> i32 {
                     match serde_json::from_str::<Violation>(rest) {
                         Ok(v) => raw.push(v),
                         Err(e) => harness_error(&format!("bad V line: {e}")),
+                    }
+                } else if let Some(rest) = line.strip_prefix("S! ") {
+                    // batch done and the worker retires: hand the next batch to a fresh one
+                    let j: Json = serde_json::from_str(rest).unwrap_or_else(|e| harness_error(&format!("bad S line: {e}")));
+                    stats.merge_json(&j, 5);
+                    stats.inc("workers_recycled");
+                    w.batch = None;
+                    w.stdin = None;
+                    if !truncated && !queue.is_empty() {
+                        let mut nw = spawn_worker(next_id, &id, tier, seed, &tx);
+                        assign(&mut nw, &mut queue, truncated);
+                        workers.insert(next_id, nw);
+                        next_id += 1;
                     }
                 } else if let Some(rest) = line.strip_prefix("S ") {
                     let j: Json = serde_json::from_str(rest).unwrap_or_else(|e| harness_error(&format!("bad S line: {e}")));
